@@ -105,7 +105,7 @@ def run_fault(spec: Dict[str, Any], fault: Dict[str, Any], mode_name: str, strea
 def run(rep: vlib.Reporter, tier: str, seed: int) -> None:
     rng = random.Random(seed * 1019 + 8)
     install()
-    pr = vlib.build_props("C08", extra_targets=["Model/OrchCheck.vo"])
+    pr = vlib.build_props("C08", extra_targets=["Model/OrchCheck.vo", "Model/OrchMid.vo"])
     rep.proof(pr)
     rep.level = "proof"
     rep.coverage["trusted_base"] += [
@@ -124,6 +124,7 @@ def run(rep: vlib.Reporter, tier: str, seed: int) -> None:
     specs, gstats = gen_specs(rng, 120 if big else 16)
     cases: List[Dict[str, Any]] = []
     cf_decisions: List[Any] = []
+    mid_recs: List[Dict[str, Any]] = []
     n_mp = 0
     for spec in specs:
         uni = Universe(spec, GateListener())
@@ -144,6 +145,8 @@ def run(rep: vlib.Reporter, tier: str, seed: int) -> None:
         foot_ = {int(k): (v[0], list(v[1])) for k, v in base["foot"].items()}
         threading_ok = mp_obs.conflict_free_py(plan, foot_)
         cf_decisions.append((plan, foot_, threading_ok))
+        if threading_ok:
+            mid_recs.append({"spec": spec, "plan": {k: v for k, v in plan.items() if k != "_ren"}})
         flts = faults_for(plan, spec)
         mp_ok: Optional[bool] = None
         if not big:
@@ -186,6 +189,11 @@ def run(rep: vlib.Reporter, tier: str, seed: int) -> None:
                 cases.append({"spec": tspec, "fault": {"kind": "type"}, "mode": mode_name, "stream": False,
                               "status": "raised", "carries_message": True, "wall": 0, "begin": [], "raised": [], "plan": None})
 
+    # a calculation that raises in the MIDDLE of a pass of the loop (deterministic schedule; harness/c01_midpass.py, Model/OrchMid.v):
+    # raised, with the original message, nothing that waits for the failed step begins
+    from harness import c01_midpass
+    f_mid, _ = c01_midpass.family(rep, "C08", mid_recs, list(range(len(mid_recs))), random.Random(seed * 37 + 5), 30 if big else 6)
+    found |= f_mid
     dist: Dict[str, Any] = {"specs": len(specs), "cases": len(cases), "by_kind": {}, "by_mode": {}, "max_wall": 0.0,
                             "raised_with_message": 0, "plans_with_threading_cases": sum(1 for d in cf_decisions if d[2]),
                             "plans_sync_only_unordered_conflicts": sum(1 for d in cf_decisions if not d[2])}
@@ -246,6 +254,10 @@ def replay(path: str) -> int:
     r = json.load(open(path))["replay"]
     if r.get("kind") == "worker_proto":
         return worker_proto.replay_main(r, "C08")
+    if r.get("kind") == "midpass":
+        from harness import c01_midpass
+        install()
+        return c01_midpass.replay(r)
     res = run_fault(r["spec"], r["fault"], r["mode"], r["stream"])
     print(json.dumps({k: v for k, v in res.items() if k != "plan"}, indent=1, default=str))
     return 0
